@@ -633,6 +633,7 @@ fn params(index: u64, rng: &mut Rng) -> (GraphParams, bool) {
             density_q: rng.range(2, 10),
             c03: true,
             subdir_loadpath: rng.chance(1, 8),
+            chain: false,
         },
         assign_via_forward,
     )
